@@ -1427,6 +1427,10 @@ impl Connection {
     /// configuration in the [`TransportConfig`].
     pub fn path_changed(&mut self, now: Instant) {
         self.path.reset(now, &self.config);
+        // The restarted MTU state must keep honouring the peer's limit, also without MTU discovery
+        self.path.mtud.on_peer_max_udp_payload_size_received(
+            u16::try_from(self.peer_params.max_udp_payload_size.into_inner()).unwrap_or(u16::MAX),
+        );
     }
 
     /// Modify the number of remotely initiated streams that may be concurrently open
